@@ -796,11 +796,17 @@ func concPhase(d time.Duration) {
 		if m == nil {
 			continue
 		}
-		j, _ := json.Marshal(msgAbs(m))
+		rb := make([]byte, m.Len())
+		n, err := m.Pack(rb, false, 0)
 		dnsmsg.ReleaseMsg(m)
+		if err != nil {
+			continue
+		}
 		wires = append(wires, w)
-		refs = append(refs, string(j))
+		refs = append(refs, string(rb[:n]))
 	}
+	// the pool's ownership instrumentation takes one lock per buffer: off, the goroutines have to run in parallel
+	pool.VerifBypass.Store(true)
 	deadline := time.Now().Add(d)
 	var bad atomic.Int64
 	var total atomic.Int64
@@ -809,9 +815,10 @@ func concPhase(d time.Duration) {
 			tr.Emit("unpack", "in", vtrace.Bytes(wires[v]), "ok", true, "msg", msgAbs(m))
 		}
 	}
-	same := func(v int, m *dnsmsg.Msg) bool {
-		j, _ := json.Marshal(msgAbs(m))
-		return string(j) == refs[v]
+	same := func(v int, m *dnsmsg.Msg) bool { // the uncompressed re-encoding is the one the sequential decoding gave
+		b := make([]byte, m.Len()+16)
+		n, err := m.Pack(b[:m.Len()], false, 0)
+		return err == nil && string(b[:n]) == refs[v]
 	}
 	var wg sync.WaitGroup
 	procs := runtime.GOMAXPROCS(0)
